@@ -382,6 +382,11 @@ theorem HeapIn.mono {P Q : Nat → Prop} {B M} {h : DataHeap} (hh : HeapIn P B M
     HeapIn Q B M h :=
   fun m m' β β' μ μ' hm => hh m m' β β' μ μ' (hm.mono hpq)
 
+theorem ValIn.imp {P Q : Nat → Prop} {B B' : String → Prop} {M M' : Nat → Prop} {v : Val} (h : ValIn P B M v)
+    (hp : ∀ id, P id → Q id) (hb : ∀ n, B n → B' n) (hm : ∀ l, M l → M' l) : ValIn Q B' M' v :=
+  fun m m' β β' μ μ' ha => h m m' β β' μ μ' ⟨fun id hid => ha.fn id (hp id hid), fun n hn => ha.bi n (hb n hn),
+    fun l hl => ha.mark l (hm l hl)⟩
+
 /-- a function value of `ValIn P …` is a function of `P` -/
 theorem ValIn.fn {P B M} {k : Nat} (h : ValIn P B M (.fn k)) : P k := by
   classical
